@@ -5,7 +5,7 @@ from hypothesis import strategies as st
 
 from conda_content_trust import common as C
 
-from vlib import gen_json as G, gen_pyvalues as GP, keys, ref_grammar as g
+from vlib import gen_envelope as GE, gen_json as G, gen_pyvalues as GP, keys, ref_grammar as g
 from vlib import fuzz as FZ
 from vlib import cfgunit as _cfgunit, interrupt as _interrupt
 from vlib.runner import Unit, Violation
@@ -288,7 +288,52 @@ def check_fuzz(case):
     return FZ.run_campaign("fuzz_grammar", case, PROPERTY)
 
 
+def enum_consumers(tier):
+    for i in range(4 if tier == "quick" else 12):
+        pub = keys.pub_hex(keys.POOL[i])
+        for j, v in enumerate(GE.key_variants(pub) + [pub.upper()[:32] + pub[32:], pub[:63] + pub[63].upper()]):
+            if v != pub:
+                yield {"seed": keys.POOL[i].hex(), "variant": v, "j": j}
+
+
+def check_consumers(case):
+    """one spelling per key, at every function that takes a key string: a genuine signature by the key, presented together with
+    another spelling of that key (upper case, blanks, 0x, non-ASCII digits, ...), is never accepted"""
+    from conda_content_trust import authentication as A
+    from vlib import gen_metadata as GM, ref_openpgp
+    from vlib.ref_canon import canon
+    seed, v = bytes.fromhex(case["seed"]), case["variant"]
+    pub = keys.pub_hex(seed)
+    payload = {"name": "pkg", "n": case["j"]}
+    B = canon(payload)
+    gent = ref_openpgp.entry(seed, B)
+    rent = {"signature": keys.sign_raw(seed, B).hex()}
+    probes = [
+        ("verify_gpg_signature(entry, <variant>, payload)", lambda: A.verify_gpg_signature(dict(gent), v, B)),
+        ("PublicKey.from_hex(<variant>)", lambda: C.PublicKey.from_hex(v)),
+        ("verify_signable(gpg=True) with the entry filed under and authorized as <variant>",
+         lambda: A.verify_signable({"signatures": {v: dict(gent)}, "signed": payload}, [v], 1, gpg=True)),
+        ("verify_signable(gpg=False) with the entry filed under and authorized as <variant>",
+         lambda: A.verify_signable({"signatures": {v: dict(rent)}, "signed": payload}, [v], 1, gpg=False)),
+        ("verify_signable with the entry filed under <variant>, the canonical key authorized",
+         lambda: A.verify_signable({"signatures": {v: dict(rent)}, "signed": payload}, [pub], 1)),
+        ("verify_delegation under trusted metadata that lists <variant>",
+         lambda: A.verify_delegation("pkg_mgr", {"signatures": {v: dict(rent), pub: dict(rent)}, "signed": payload},
+                                     GM.wrap(GM.signed_part("key_mgr", {"pkg_mgr": {"pubkeys": [v], "threshold": 1}})))),
+    ]
+    for what, f in probes:
+        try:
+            f()
+        except Exception:       # noqa: BLE001 - any refusal is fine here; the classes are C13's business
+            continue
+        raise Violation("%s returned normally for the spelling %r of key %s: a second spelling of one key is honoured" % (what, v, pub[:16]),
+                        bucket="key spelling honoured by " + what.split("(")[0])
+    return {"nontrivial": True, "labels": ["variant=%d" % case["j"]]}
+
+
 UNITS = [
+    Unit("key_consumers", check_consumers, enumerate=enum_consumers, exhaustive=True, shards_quick=4,
+         doc="every function that takes a key string x 17 other spellings of a genuine signer's key: never honoured"),
     Unit("strings", check_strings, strategy=_strings, quick=3000, thorough=100000,
          essential=["kind=sub", "kind=ins", "kind=app", "kind=length", "kind=upper", "kind=mixed"],
          doc="boundary strings x {hex string, key, signature, fingerprint} validators == regex grammars; pair agreement"),
